@@ -840,6 +840,28 @@ impl<'a> Gen<'a> {
             let nv = self.new_var(ot, None);
             out.push(S::Let(nv, Some(ann), E::Try(k, path, Box::new(E::Var(w)))));
             self.kinds.insert("question-mark");
+        } else if r < 91 {
+            // a value whose type keeps an unconstrained type variable: the
+            // other variant is uninhabited (`enum { Some(!), None }`)
+            let (ctor, tag, payload): (&str, usize, Option<E>) = match self.p.below(3) {
+                0 => ("None", 1, None),
+                1 => ("Ok", 0, Some(E::Lit(self.p.below(100) as i128))),
+                _ => ("Err", 1, Some(E::Str("e".into()))),
+            };
+            let mk = |pl: &Option<E>| E::Enm(ctor.to_string(), tag, pl.iter().cloned().collect());
+            let u1 = self.new_var(T::Unit, None);
+            let u2 = self.new_var(T::Unit, None);
+            self.vars[u1].live = false;
+            self.vars[u2].live = false;
+            out.push(S::Let(u1, None, mk(&payload)));
+            out.push(S::Let(u2, None, E::Var(u1)));
+            out.push(S::Emit(E::Eq(false, Box::new(E::Var(u1)), Box::new(E::Var(u2))), T::Bool));
+            out.push(S::Emit(E::Eq(true, Box::new(E::Var(u2)), Box::new(mk(&payload))), T::Bool));
+            if let Some(E::Lit(n)) = &payload {
+                let other = Some(E::Lit(n + 1));
+                out.push(S::Emit(E::Eq(false, Box::new(E::Var(u1)), Box::new(mk(&other))), T::Bool));
+            }
+            self.kinds.insert("unconstrained-type-variable");
         } else if r < 96 {
             // == / != between two values of one type
             if self.vars[v].anon.is_some() {
